@@ -144,7 +144,24 @@ func init() {
 						if k == 1 || strings.ContainsRune("epq", rune(hist[k])) {
 							nblocks++
 						}
+						// verification attempts - rejected under a retired key, accepted under the right one - are
+						// read-only: the identifiers read before, between and after them are the same
+						id0 := tok.RevocationIds()
+						wrong, _ := hx.Keys(9)
+						right, _ := hx.Keys(byte(hist[0] - '0'))
+						_, werr := tok.AuthorizerFor(biscuit.WithSingularRootPublicKey(wrong), hx.LongLimits)
+						id1 := tok.RevocationIds()
+						_, rerr := tok.AuthorizerFor(biscuit.WithSingularRootPublicKey(right), hx.LongLimits)
 						ids := tok.RevocationIds()
+						if werr == nil || rerr != nil {
+							w.Violate("C17:verification-verdict", fmt.Sprintf("%s after step %d", hist, step), fmt.Sprint(werr, rerr), "rejected under a foreign root, accepted under its own")
+							return
+						}
+						if fmt.Sprintf("%x", id0) != fmt.Sprintf("%x", id1) || fmt.Sprintf("%x", id1) != fmt.Sprintf("%x", ids) {
+							w.Class("ids-changed-by-verification")
+							w.Violate("C17:ids-changed-by-a-verification-attempt", fmt.Sprintf("%s after step %d", hist, step), fmt.Sprintf("before %x, after a rejected verification %x, after a successful one %x", id0, id1, ids), "identical")
+							return
+						}
 						if len(ids) != nblocks {
 							w.Class("wrong-count")
 							w.Violate("C17:id-count", fmt.Sprintf("%s after step %d", hist, step), fmt.Sprint(len(ids)), fmt.Sprint(nblocks))
@@ -215,6 +232,32 @@ func init() {
 						if !same {
 							w.Class("sibling-disturbed")
 							w.Violate("C17:sibling-derivation-changes-ids", hist+" then Append(P) -> a, Append(Q) -> b on the same parent", fmt.Sprintf("ids of a after b was created: %x", after), fmt.Sprintf("%x", idsA))
+							return
+						}
+						// one built block appended twice: two signing operations, two identifiers, and the first
+						// child keeps its own
+						bb2 := final.CreateBlock()
+						hx.FillBlock(bb2, c17Contents['P'])
+						sameBlk := bb2.Build()
+						c1, e1 := final.Append(c17RNG(seedOf(hist+"|same1"), short), sameBlk)
+						var c1ids [][]byte
+						if e1 == nil {
+							c1ids = c1.RevocationIds()
+						}
+						c2, e2 := final.Append(c17RNG(seedOf(hist+"|same2"), short), sameBlk)
+						if e1 != nil || e2 != nil {
+							w.Violate("C17:fork-failed", hist, fmt.Sprint(e1, e2), "tokens")
+							return
+						}
+						w.Stats().Transitions += 2
+						if fmt.Sprintf("%x", c1.RevocationIds()) != fmt.Sprintf("%x", c1ids) {
+							w.Class("sibling-disturbed")
+							w.Violate("C17:sibling-derivation-changes-ids", hist+" then the same built block appended twice", fmt.Sprintf("first child now reports %x", c1.RevocationIds()), fmt.Sprintf("%x", c1ids))
+							return
+						}
+						if l1, l2 := c1.RevocationIds(), c2.RevocationIds(); bytes.Equal(l1[len(l1)-1], l2[len(l2)-1]) {
+							w.Class("siblings-share-id")
+							w.Violate("C17:siblings-share-an-id", hist+" then the same built block appended twice", fmt.Sprintf("%x", l1[len(l1)-1]), "distinct identifiers")
 							return
 						}
 						idsB := b.RevocationIds()
